@@ -22,7 +22,7 @@ func init() {
 		Run: ruleNoUseAfterRelease,
 	})
 	register(&Rule{
-		Name: "reset-completeness", Props: []string{"C19", "C05", "C16"}, Engine: "POOL", Floor: 60,
+		Name: "reset-completeness", Props: []string{"C19", "C05", "C16", "C20", "C08"}, Engine: "POOL", Floor: 60,
 		Doc: "for every pooled type, each field is (re)initialised on the acquire/reset path or listed with a reason: a field that survives recycling leaks one connection's state into another",
 		Run: ruleResetCompleteness,
 	})
@@ -294,6 +294,83 @@ func ruleNoUseAfterRelease(p *Prog, r *Out) {
 							what = "releases or hands off again"
 						}
 						r.bad(fmt.Sprintf("%s: %s after release", fn, desc), p.ipos(u), fmt.Sprintf("%s %s %s at %s after it was released or handed to another goroutine at %s: the object may already belong to a new owner", fn, what, desc, p.ipos(u), p.ipos(c)))
+					}
+				}
+			}
+			// values derived from the object (its body, type assertions and
+			// interface conversions of it) die with it: none may be used, stored
+			// or flow on (through a phi edge) after the object was released
+			if _, isHdr := v.Type().(*types.Pointer); isHdr && p.isFrameHeaderPtr(v.Type()) {
+				derived := p.derivedFrom(v)
+				for _, c := range consumers {
+					start := p.consumeStart(c, v)
+					for _, d := range derived {
+						if d.Referrers() == nil {
+							continue
+						}
+						for _, u := range *d.Referrers() {
+							var usePoints []ssa.Instruction
+							switch x := u.(type) {
+							case *ssa.DebugRef:
+								continue
+							case *ssa.Phi:
+								for ei, e := range x.Edges {
+									if e == d && ei < len(x.Block().Preds) {
+										pb := x.Block().Preds[ei]
+										if len(pb.Instrs) > 0 {
+											usePoints = append(usePoints, pb.Instrs[len(pb.Instrs)-1])
+										}
+									}
+								}
+								// the merged value carries the body onwards: its uses after
+								// the release, on paths that do not re-evaluate the phi
+								if x.Referrers() != nil {
+									for _, pu := range *x.Referrers() {
+										var ups []ssa.Instruction
+										if ph2, ok := pu.(*ssa.Phi); ok {
+											for ei, e := range ph2.Edges {
+												if e == ssa.Value(x) && ei < len(ph2.Block().Preds) {
+													pb := ph2.Block().Preds[ei]
+													if len(pb.Instrs) > 0 {
+														ups = append(ups, pb.Instrs[len(pb.Instrs)-1])
+													}
+												}
+											}
+										} else if _, ok := pu.(*ssa.DebugRef); !ok {
+											ups = append(ups, pu)
+										}
+										for _, up := range ups {
+											after := reachFromStart(start, c, up, x)
+											if !after && up.Block() == c.Block() && instrIndex(c) < instrIndex(up) && x.Block() == c.Block() {
+												after = true
+											}
+											if after {
+												okAll = false
+												r.bad(fmt.Sprintf("%s: body of %s outlives its release", fn, desc), p.ipos(up), fmt.Sprintf("%s merges %s (taken from %s's body) into a variable and that variable is still used at %s after the frame header was released at %s: the body is back in its pool and its next owner rewrites it under the value kept here (e.g. an error stored as the connection's last error)", fn, p.vdescN(d, 2), desc, p.ipos(up), p.ipos(c)))
+											}
+										}
+									}
+								}
+							default:
+								if dv, ok := u.(ssa.Value); ok && containsValue(derived, dv) {
+									continue // another derived value; judged on its own uses
+								}
+								usePoints = append(usePoints, u)
+							}
+							for _, up := range usePoints {
+								if up == c {
+									continue
+								}
+								after := reachFromStart(start, c, up, def)
+								if !after && up.Block() == c.Block() && instrIndex(c) < instrIndex(up) {
+									after = true
+								}
+								if after {
+									okAll = false
+									r.bad(fmt.Sprintf("%s: body of %s outlives its release", fn, desc), p.ipos(up), fmt.Sprintf("%s keeps using %s (taken from %s's body) at %s after the frame header was released at %s: the body is back in its pool and its next owner rewrites it under the value still held here (an error stored for later, a field, a returned value)", fn, p.vdescN(d, 2), desc, p.ipos(up), p.ipos(c)))
+								}
+							}
+						}
 					}
 				}
 			}
@@ -784,4 +861,52 @@ func (p *Prog) rootByRole(name, where string) bool {
 		return true
 	}
 	return false
+}
+
+func containsValue(vs []ssa.Value, v ssa.Value) bool {
+	for _, x := range vs {
+		if x == v {
+			return true
+		}
+	}
+	return false
+}
+
+// derivedFrom lists the SSA values that alias a frame header's body: the
+// result of Body(v), and type assertions, tuple extracts and interface
+// conversions of those. Phis are not included (judged per incoming edge).
+func (p *Prog) derivedFrom(v ssa.Value) []ssa.Value {
+	var out []ssa.Value
+	seen := map[ssa.Value]bool{}
+	var add func(x ssa.Value)
+	add = func(x ssa.Value) {
+		if seen[x] || x.Referrers() == nil {
+			return
+		}
+		seen[x] = true
+		out = append(out, x)
+		for _, u := range *x.Referrers() {
+			switch y := u.(type) {
+			case *ssa.TypeAssert:
+				add(y)
+			case *ssa.MakeInterface:
+				add(y)
+			case *ssa.ChangeInterface:
+				add(y)
+			case *ssa.Extract:
+				if _, isPtr := y.Type().Underlying().(*types.Pointer); isPtr {
+					add(y)
+				}
+			}
+		}
+	}
+	if v.Referrers() == nil {
+		return nil
+	}
+	for _, u := range *v.Referrers() {
+		if c, ok := u.(*ssa.Call); ok && p.calleeName(c.Common()) == "(*FrameHeader).Body" && len(c.Call.Args) == 1 && c.Call.Args[0] == v {
+			add(c)
+		}
+	}
+	return out
 }
